@@ -13,7 +13,13 @@ impl From<&[autd3_driver::firmware::cpu::TxMessage]> for TxRawData {
 
 impl FromMessage<TxRawData> for Vec<autd3_driver::firmware::cpu::TxMessage> {
     fn from_msg(msg: TxRawData) -> Result<Self, AUTDProtoBufError> {
-        let mut tx = vec![autd3_driver::firmware::cpu::TxMessage::new_zeroed(); msg.n as _];
+        let n = msg.n as usize;
+        if n.checked_mul(std::mem::size_of::<autd3_driver::firmware::cpu::TxMessage>())
+            != Some(msg.data.len())
+        {
+            return Err(AUTDProtoBufError::DataParseError);
+        }
+        let mut tx = vec![autd3_driver::firmware::cpu::TxMessage::new_zeroed(); n];
         unsafe {
             std::ptr::copy_nonoverlapping(msg.data.as_ptr(), tx.as_mut_ptr() as _, msg.data.len());
         }
